@@ -298,7 +298,7 @@ def cmd_report(a):
     for rel in all_rs:
         kind = file_kind(rel)
         if rel not in total:
-            o.append("%-42s %7s %7s %7s   %5s %5s   %10s  %s" % (rel, "-", "-", "-", "-", "-", "-", (kind + " " if kind else "") + "not compiled into any harness binary (cfg(test) only?)"))
+            o.append("%-42s %7s %7s %7s   %5s %5s   %10s  %s" % (rel, "-", "-", "-", "-", "-", "-", (kind + " " if kind else "") + "no instrumented code in any harness binary (cfg(test)-only module, or declarations without bodies)"))
             continue
         lt, lc, ft, fcv, unc = file_stats(total[rel], S(rel))
         o.append("%-42s %7d %7d %7s   %5d %5d   %10d  %s" % (rel, lt, lc, pct(lc, lt), ft, fcv, len(unc), kind))
